@@ -51,23 +51,28 @@ namespace Store
 /-- read_*_property_from_store: `cursor_lower_bound` + exact match = the newest entry of the key -/
 def get (st : Store) (k : SKey) : Option PV := st.lookup k
 
-/-- extend_node_properties_from_store: every entry of the node whose key is not in `props` is
-    fetched (`props` is not updated while scanning), then inserted in scan order — for a key with
-    several entries the LAST one scanned, i.e. the oldest, wins. -/
-def extendNode (st : Store) (n : Nat) (props : List (Nat × PV)) : List (Nat × PV) :=
-  let toFetch := st.filterMap (fun p =>
+/-- the `to_fetch` list of extend_node_properties_from_store: every entry of the node whose key is
+    not in `props`, in scan order (`props` is not updated while scanning) -/
+def fetchNode (st : Store) (n : Nat) (props : List (Nat × PV)) : List (Nat × PV) :=
+  st.filterMap (fun p =>
     match p.1 with
     | .node n' k => if n' == n && !props.any (·.1 == k) then some (k, p.2) else none
     | .edge _ _ => none)
-  toFetch.foldl (fun m kv => upsert kv.1 kv.2 m) props
 
-/-- extend_edge_properties_from_store -/
-def extendEdge (st : Store) (e : Edge) (props : List (Nat × PV)) : List (Nat × PV) :=
-  let toFetch := st.filterMap (fun p =>
+/-- extend_node_properties_from_store: the fetched entries are inserted in scan order — for a key
+    with several entries the LAST one scanned, i.e. the oldest, wins. -/
+def extendNode (st : Store) (n : Nat) (props : List (Nat × PV)) : List (Nat × PV) :=
+  (st.fetchNode n props).foldl (fun m kv => upsert kv.1 kv.2 m) props
+
+def fetchEdge (st : Store) (e : Edge) (props : List (Nat × PV)) : List (Nat × PV) :=
+  st.filterMap (fun p =>
     match p.1 with
     | .edge e' k => if e' == e && !props.any (·.1 == k) then some (k, p.2) else none
     | .node _ _ => none)
-  toFetch.foldl (fun m kv => upsert kv.1 kv.2 m) props
+
+/-- extend_edge_properties_from_store -/
+def extendEdge (st : Store) (e : Edge) (props : List (Nat × PV)) : List (Nat × PV) :=
+  (st.fetchEdge e props).foldl (fun m kv => upsert kv.1 kv.2 m) props
 
 end Store
 
